@@ -228,6 +228,33 @@ def _tdiv(a, b):
     return a / b
 
 
+class npint(int):
+    """concrete result of a reduction: a numpy scalar, whose true division by zero gives nan/inf instead of raising"""
+    def __truediv__(self, o):
+        return _tdiv(int(self), o)
+
+    def __rtruediv__(self, o):
+        return _tdiv(o, int(self))
+
+
+class npfloat(float):
+    def __truediv__(self, o):
+        return _tdiv(float(self), o)
+
+    def __rtruediv__(self, o):
+        return _tdiv(o, float(self))
+
+
+def np_scalar(v):
+    if isinstance(v, bool) or E.is_sym(v):
+        return v
+    if isinstance(v, int):
+        return npint(v)
+    if isinstance(v, float):
+        return npfloat(v)
+    return v
+
+
 C_ADD = _arith(lambda a, b: a + b)
 C_SUB = _arith(lambda a, b: a - b)
 C_MUL = _arith(lambda a, b: a * b)
